@@ -2,11 +2,13 @@ package c18
 
 import (
 	"context"
+	"encoding/json"
 	"errors"
 	"fmt"
 	"io"
 	"net/http"
 	"os"
+	"os/exec"
 	"path/filepath"
 	"sort"
 	"strings"
@@ -805,6 +807,13 @@ func classify(outcome string) string {
 }
 
 func TestC18(t *testing.T) {
+	if f := os.Getenv("C18_SEQ_CHILD"); f != "" {
+		b, _ := json.Marshal(checks.SeqSoloObservations(true))
+		if err := os.WriteFile(f, b, 0o644); err != nil {
+			t.Fatal(err)
+		}
+		return
+	}
 	if os.Getenv("C18_REPLAY") != "" {
 		replay(t, os.Getenv("C18_REPLAY"))
 		return
@@ -1031,7 +1040,26 @@ func mergeShards(t *testing.T, r *engine.Run, files []string) {
 		}
 	}
 	// part D: sequential histories (degenerate schedules), single process
-	checks.SeqHistories(r, tier() != "thorough")
+	checks.SeqHistories(r, tier() != "thorough", func() (map[string]string, error) {
+		// the reverse-order reference pass runs in a fresh process of this same binary
+		cmd := exec.Command(os.Args[0], "-test.run", "^TestC18$", "-test.timeout", "0")
+		f, err := os.CreateTemp("", "c18rev")
+		if err != nil {
+			return nil, err
+		}
+		f.Close()
+		defer os.Remove(f.Name())
+		cmd.Env = append(os.Environ(), "C18_SEQ_CHILD="+f.Name(), "C18_MERGE=", "C18_SHARD=", "C18_REPLAY=")
+		if out, err := cmd.CombinedOutput(); err != nil {
+			return nil, fmt.Errorf("%v: %s", err, out)
+		}
+		b, err := os.ReadFile(f.Name())
+		if err != nil {
+			return nil, err
+		}
+		m := map[string]string{}
+		return m, jsonUnmarshal(b, &m)
+	})
 	code := r.Finish()
 	if f := os.Getenv("C18_EXIT_FILE"); f != "" {
 		os.WriteFile(f, []byte(fmt.Sprint(code)), 0o644)
